@@ -238,3 +238,7 @@ def run(ctx):
     # ---------------------------------------------------------------- R6 special members
     n6 = L.check_special_members(ctx, "C19.R6", fb, r"^babylon::(Compact)?EnumerableThreadLocal<.*>$")
     ctx.floor("C19.R6", n6, 6, "thread-local move members")
+
+
+SWEEP = ["concurrent/test_counter.cpp",
+         "concurrent/test_thread_local.cpp"]
